@@ -151,10 +151,11 @@ theorem channelMaskSet_wf (rs : RegionState) (m : Mask) (h : regionWF rs = true)
     exact (regionWF_dyn (rs := { rs with plan := .dyn { p with mask := m } }) rfl).mpr ⟨hw.1, dynWF_iff.mpr ⟨h1, hm, h3, h4⟩⟩
   | fix p =>
     have hw := (regionWF_fix hp).mp h
-    obtain ⟨_, h2⟩ := jcWF_iff.mp hw.2.2
+    obtain ⟨_, h2, _, _⟩ := jcWF_iff.mp hw.2.2
     refine ⟨?_, rfl⟩
     exact (regionWF_fix (rs := { rs with plan := .fix { mask := m, jc := p.jc.reset } }) rfl).mpr
-      ⟨hw.1, hm, jcWF_iff.mpr ⟨by simp [JoinChannels.reset, Mask.default], h2⟩⟩
+      ⟨hw.1, hm, jcWF_iff.mpr ⟨by simp [JoinChannels.reset, Mask.default], h2, avInv_fresh,
+        biasFresh_iff.mpr (fun _ _ => ⟨rfl, rfl⟩)⟩⟩
 
 theorem channelMaskValidate_tot (rs : RegionState) (m : Mask) (dr : Option DR) (h : regionWF rs = true)
     (hm : m.length = 9) (hdr : ∀ d, dr = some d → d.toInt.toNat < 15) :
@@ -341,7 +342,7 @@ theorem processJoinAccept_tot (rs : RegionState) (cf : Option CfList) (h : regio
           ⟨hw.1, dynWF_iff.mpr ⟨hc1, h2, hc2, hc3⟩⟩
   | fix p =>
     have hw := (regionWF_fix hp).mp h
-    obtain ⟨_, hsb⟩ := jcWF_iff.mp hw.2.2
+    obtain ⟨_, hsb, _, _⟩ := jcWF_iff.mp hw.2.2
     cases cf with
     | none => exact Tot.pure ⟨h, rfl⟩
     | some c =>
@@ -352,6 +353,7 @@ theorem processJoinAccept_tot (rs : RegionState) (cf : Option CfList) (h : regio
         have hm : m.length = 9 := by simpa [cfListWF] using hcf
         refine Tot.pure ⟨?_, rfl⟩
         exact (regionWF_fix (rs := { rs with plan := .fix { mask := m, jc := p.jc.reset } }) rfl).mpr
-          ⟨hw.1, hm, jcWF_iff.mpr ⟨by simp [JoinChannels.reset, Mask.default], hsb⟩⟩
+          ⟨hw.1, hm, jcWF_iff.mpr ⟨by simp [JoinChannels.reset, Mask.default], hsb, avInv_fresh,
+            biasFresh_iff.mpr (fun _ _ => ⟨rfl, rfl⟩)⟩⟩
 
 end Model
